@@ -321,6 +321,13 @@ class AttributeAssignment:
         :return: True if a type filter condition is needed for the attribute assignment, else False.
         """
         attr_type = self.attr._type_
+        if (
+            attr_type
+            and self.assigned_value.type_
+            and self.attr._wrapped_field_.is_optional
+        ):
+            # None is not an instance of the matched type
+            return True
         return (not attr_type) or (
             (self.assigned_value.type_ and self.assigned_value.type_ is not attr_type)
             and issubclass(self.assigned_value.type_, attr_type)
